@@ -190,9 +190,18 @@ pub fn vector_mut_copy(vm: &mut Vm) -> Result<VCell, Error> {
         return Err(InvalidSyntax("vector-copy!: to vector is too small".into()));
     }
 
-    for i in start..end {
-        let val = from_vector.get(i).unwrap();
-        to_vector.put(at + (i - start), val);
+    // to and from may be the same vector: copy in the direction that reads
+    // every element before it is overwritten.
+    if at <= start {
+        for i in start..end {
+            let val = from_vector.get(i).unwrap();
+            to_vector.put(at + (i - start), val);
+        }
+    } else {
+        for i in (start..end).rev() {
+            let val = from_vector.get(i).unwrap();
+            to_vector.put(at + (i - start), val);
+        }
     }
 
     Ok(VCell::Void)
